@@ -507,7 +507,6 @@ func (cpu *CPU) cmdRead16() uint16 {
 		m_Absolute_X,
 		m_Absolute_Y,
 		m_DP_Indirect_Y,
-		m_Absolute_X_Indirect,
 		m_Stack_Relative_Indirect_Y:
 		return cpu.Bus.eaRead16_cross(cpu.StepInfo.EA)
 
@@ -515,6 +514,10 @@ func (cpu *CPU) cmdRead16() uint16 {
 		m_DP_X_Indirect,
 		m_DP_Indirect:
 		return cpu.Bus.nRead16_cross(cpu.RDBR, cpu.StepInfo.Addr)
+
+	case m_Absolute_X_Indirect:
+		// the pointer lives in the program bank and wraps inside it
+		return cpu.Bus.nRead16_wrap(cpu.RK, uint16(cpu.StepInfo.EA))
 
 	default:
 		//fmt.Fprintf(&cpu.LogBuf, "cmdRead16: unknown Mode %v\n", cpu.StepInfo.Mode)
